@@ -328,7 +328,10 @@ PROPS["C05"]["shards"] = lambda tier, seed, search=False: _c05b(tier, seed, sear
 _c05c = PROPS["C05"]["shards"]
 PROPS["C05"]["shards"] = lambda tier, seed, search=False: _c05c(tier, seed, search) + [
     Shard("dbtime", ["-seed", str(s), "-n", "6" if tier == "quick" else "40", "-steps", "25"], driver="crypto", binary="storetrace") for s in seeds(seed, 2 if tier == "quick" else 6)]
-PROPS["C05"]["rule"] = PROPS["C05"]["rule"] + "; plus one database living through months and years of virtual time (testing/synctest) with the key service unreachable once it is open: key uses per call, answers, reopen of a copy; plus one save traced under strace on a database file that exists with mode 0644 (every mode given to open or chmod must be 0600)"
+_c05d = PROPS["C05"]["shards"]
+PROPS["C05"]["shards"] = lambda tier, seed, search=False: _c05d(tier, seed, search) + [
+    Shard("backup", ["-seed", str(s), "-n", "40" if tier == "quick" else "300"], driver="backup", binary="storetrace") for s in seeds(seed, 2)]
+PROPS["C05"]["rule"] = PROPS["C05"]["rule"] + "; plus the backup task running (what lies in the database's directory, with which modes, while an upload is under way); plus one database living through months and years of virtual time (testing/synctest) with the key service unreachable once it is open: key uses per call, answers, reopen of a copy; plus one save traced under strace on a database file that exists with mode 0644 (every mode given to open or chmod must be 0600)"
 
 for _pid in ("C13", "C19"):
     PROPS[_pid]["race"] = True
